@@ -13,7 +13,7 @@ Decided:
   C19.registry  rule names: get_all_rule_names == FromStr arms == get_name results; defaults listed [T9]
 Not decided: pattern validity, JSON5 parsing.
 """
-from .. import thir, absint
+from .. import thir, absint, interproc
 from ..thir import callee_of
 from ..facts import norm_path
 
@@ -476,6 +476,142 @@ def _default_fn_class(lib, name):
     return "other"
 
 
+def roundtrip(R, ctx):
+    """configure o serialize_to_properties is the identity on every rule state reachable from one property (finite-domain evaluation)."""
+    import copy
+    from .. import peval
+    from ..peval import Enum, Struct, UNKNOWN, PyMap, PySet, ok
+    rid = "C19.roundtrip"
+    lib = ctx.lib
+    R.rule(rid, "for every rule with properties: starting from Default, configure() is evaluated with each accepted key set to each candidate "
+                "value of each RulePropertyValue kind (booleans, a number, strings -- including every string the rule's own code compares "
+                "with --, string lists with and without the `$`-groups); the resulting rule is serialised with serialize_to_properties() and "
+                "the properties are fed to configure() on a fresh Default: the rule obtained is the same (string lists compared as sets, "
+                "lazily computed caches ignored). A property that is dropped or altered on the way makes a saved configuration behave "
+                "differently from the one that was given, and hides the edit from the configuration fingerprint (C10)")
+    RPV = "rules::rule_property::RulePropertyValue"
+    impls = [f for f in lib.fn_list if f["path"].endswith(" as rules::RuleConfiguration>::configure") and thir.body_of(f)]
+    if not R.require(rid, "anchor:impls", len(impls) >= 30 and RPV in lib.adts, "", "%d RuleConfiguration::configure bodies" % len(impls)):
+        return
+
+    def hook(pe, path, fname, args, node):
+        a0 = args[0] if args else None
+        if fname == "new" and "regex" in path.lower() and len(args) == 1 and isinstance(a0, str):
+            return ok(Struct("#Regex", {"src": a0}))
+        if isinstance(a0, Struct) and a0.adt == "#Regex":
+            if fname in ("as_str", "to_string", "to_owned"):
+                return a0.fields["src"]
+            return UNKNOWN
+        if fname == "default" and "OnceLock" in path or fname == "new" and "OnceLock" in path:
+            return Struct("#Cache", {})
+        if fname == "var" and path.startswith("std::env::"):
+            return peval.err(Struct("#VarError", {}))
+        return NotImplemented
+
+    def norm(v):
+        if isinstance(v, Struct):
+            if v.adt == "#Cache":
+                return "#cache"
+            return (v.adt, tuple(sorted((k, norm(x)) for k, x in v.fields.items())))
+        if isinstance(v, Enum):
+            return (v.adt, v.variant, tuple(sorted((k, norm(x)) for k, x in v.fields.items())))
+        if isinstance(v, peval.Iter):
+            v = v.rest()
+        if isinstance(v, list):
+            items = [norm(x) for x in v]
+            return ("set", tuple(sorted(set(items), key=repr))) if all(isinstance(x, str) for x in v) else ("list", tuple(items))
+        if isinstance(v, (PyMap,)):
+            return ("map", tuple(sorted(((norm(k), norm(x)) for k, x in v.d.items()), key=repr)))
+        if isinstance(v, PySet):
+            return ("set", tuple(sorted((norm(k) for k in v.d), key=repr)))
+        if isinstance(v, tuple):
+            return tuple(norm(x) for x in v)
+        return v if v is not UNKNOWN else "#unknown"
+    # words accepted by the FromStr impls of the library (require modes, strategies, locations, ...)
+    global_strings = set()
+    for g in lib.fn_list:
+        if g["path"].endswith("core::str::traits::FromStr>::from_str") and thir.body_of(g):
+            for n in thir.walk(thir.body_of(g)):
+                if n.get("k") == "Match":
+                    for arm in n["arms"]:
+                        global_strings.update(x for x in thir.pat_strings(arm["pat"]) if len(x) < 24)
+    n_cells = n_rules = 0
+    for f in sorted(impls, key=lambda x: x["path"]):
+        T = f["path"][1:].split(" as ")[0]
+        short = T.split("::")[-1]
+        dflt = lib.fn("<%s as core::default::Default>::default" % T)
+        ser = lib.fn("<%s as rules::RuleConfiguration>::serialize_to_properties" % T)
+        keys, strings = set(), set(global_strings)
+        for g in interproc.scope(lib, f, depth=2):
+            for n in thir.walk(thir.body_of(g)):
+                if n.get("k") == "Match":
+                    for arm in n["arms"]:
+                        ps = set(thir.pat_strings(arm["pat"]))
+                        strings.update(ps)
+                        if g is f:
+                            keys.update(ps)
+                if n.get("k") == "Lit":
+                    sv = thir.lit_str(n)
+                    if sv and len(sv) < 24 and " " not in sv:
+                        strings.add(sv)
+        if not keys or dflt is None or ser is None:
+            continue  # no properties (verify_no_rule_properties) / not default-constructible
+        n_rules += 1
+        cands = [Enum(RPV, "Boolean", {"0": True}), Enum(RPV, "Boolean", {"0": False}), Enum(RPV, "Usize", {"0": 3}), Enum(RPV, "Float", {"0": 2.5}),
+                 Enum(RPV, "String", {"0": "x"}), Enum(RPV, "StringList", {"0": ["a"]}), Enum(RPV, "StringList", {"0": ["a", "b"]}),
+                 Enum(RPV, "StringList", {"0": ["$default", "a"]}), Enum(RPV, "StringList", {"0": ["$roblox"]}), Enum(RPV, "StringList", {"0": []}), Enum(RPV, "None", {})]
+        cands += [Enum(RPV, "String", {"0": sv}) for sv in sorted(strings)]
+        bad, unk, acc = [], [], 0
+        singles = [[(k, v)] for k in sorted(keys) for v in cands]
+        accepted_single = {}
+        for phase in ("single", "pair"):
+          if phase == "pair":
+            lonely = [k for k in sorted(keys) if k not in accepted_single]
+            if not lonely:
+                break
+            if accepted_single:
+                # keys never accepted on their own (they need a companion): try them next to one accepted cell of every other key
+                cells = [[(k2, v2), (k, v)] for k in lonely for v in cands for k2, v2 in accepted_single.items()]
+            else:
+                # no key is accepted alone (mutually required keys): all pairs
+                import itertools as _it
+                cells = [[(k1, v1), (k2, v2)] for k1, k2 in _it.combinations(lonely, 2) for v1 in cands for v2 in cands]
+          else:
+            cells = singles
+          for cell in cells:
+            k, v = cell[-1]
+            if True:
+                pe = peval.PEval(lib, ctx.an, hook)
+                try:
+                    rule = pe.call_fn(dflt, [])
+                    r = pe.call_fn(f, [rule, PyMap([(kk, copy.deepcopy(vv)) for kk, vv in cell])])
+                    if not (isinstance(r, Enum) and r.variant == "Ok"):
+                        continue  # value refused (or not evaluable): nothing to round-trip
+                    if pe.unknown_reasons:
+                        unk.append((k, v.variant, pe.unknown_reasons[:1]))
+                        continue
+                    props = pe.call_fn(ser, [rule])
+                    pe2 = peval.PEval(lib, ctx.an, hook)
+                    rule2 = pe2.call_fn(dflt, [])
+                    r2 = pe2.call_fn(f, [rule2, copy.deepcopy(props)]) if isinstance(props, PyMap) else None
+                except peval.OutOfFuel:
+                    unk.append((k, v.variant, ["no termination"]))
+                    continue
+                acc += 1
+                n_cells += 1
+                if phase == "single":
+                    accepted_single.setdefault(k, v)
+                if pe.unknown_reasons or pe2.unknown_reasons or not isinstance(props, PyMap):
+                    unk.append((k, v.variant, (pe.unknown_reasons + pe2.unknown_reasons)[:1]))
+                elif not (isinstance(r2, Enum) and r2.variant == "Ok"):
+                    bad.append("%s is written as %s, which configure() refuses" % (", ".join("%s = %s" % (kk, vv.fields.get("0")) for kk, vv in cell), dict(props.d)))
+                elif norm(rule) != norm(rule2):
+                    bad.append("%s is written as %s and read back as a different rule" % (", ".join("%s = %s" % (kk, vv.fields.get("0")) for kk, vv in cell), {kk: vv.fields.get("0") if isinstance(vv, Enum) else vv for kk, vv in props.d.items()}))
+        R.ob(rid, "%s|roundtrip" % short, not bad, ctx.where(f), "%d accepted (key, value) cells round-trip" % acc if not bad else bad[0])
+        R.ob(rid, "%s|established" % short, not unk, ctx.where(f), "all cells evaluate" if not unk else "not established for %s" % (unk[0],), nontrivial=False)
+    R.require(rid, "floor", n_rules >= 5 and n_cells >= 20, "", "%d rules with properties, %d accepted cells" % (n_rules, n_cells))
+
+
 def run(R, ctx):
     R.explanation = (
         "Reader/writer agreement of the configuration layer decided on typed THIR: strictness of every configure(), serde attributes, "
@@ -490,3 +626,4 @@ def run(R, ctx):
     collide(R, ctx)
     registry(R, ctx)
     skip_default(R, ctx)
+    roundtrip(R, ctx)
